@@ -24,7 +24,7 @@ func (p *c11) Exhaustive() bool { return true }
 
 var (
 	c11Forms = []string{"_self.m", "alias.m", "from-import m", "from-import m as n", "from-import m as <name of a registered function>"}
-	c11Uses  = []string{"print", "set", "concat", "argument-of-call", "in-loop", "in-capture", "twice-in-a-row", "in-loop-then-after", "import-computed-in-loop", "in-embedded-and-included-template"}
+	c11Uses  = []string{"print", "set", "concat", "argument-of-call", "in-loop", "in-capture", "twice-in-a-row", "in-loop-then-after", "import-computed-in-loop", "in-embedded-and-included-template", "in-block-of-extending-template"}
 )
 
 func (p *c11) Init(tier string, seed int64) {
@@ -174,7 +174,9 @@ func (p *c11) buildEnum(i int) (*Program, string) {
 	var main []gen.Node
 	ts := map[string]*gen.Template{}
 	if form == 0 {
-		main = append(main, m)
+		if use != 10 {
+			main = append(main, m)
+		}
 	} else {
 		ts["lib"] = tpl("lib", c11macro("other", 1), m, tx("LIBTEXT-not-rendered"))
 	}
@@ -206,6 +208,20 @@ func (p *c11) buildEnum(i int) (*Program, string) {
 		inner = append(inner, c11use(0, call)...)
 		ts["emb"] = tpl("emb", inner...)
 		ts["main"] = tpl("main", tx("E("), &gen.NEmbed{Tpl: str("emb")}, tx(")I("), &gen.NInclude{Tpl: str("emb")}, tx(")"))
+		return &Program{Templates: ts, Main: "main", Ctx: map[string]interface{}{}},
+			fmt.Sprintf("params=%d/args=%d/%s/%s", nparams, nargs, c11Forms[form], c11Uses[use])
+	}
+	if use == 10 {
+		// the macro is defined (or imported) at the top level of a template that extends a layout and called
+		// inside one of its blocks
+		main = append(main, &gen.NExtends{Tpl: str("lay")})
+		if form == 0 {
+			main = append(main, m)
+		}
+		main = append(main, setup...)
+		main = append(main, &gen.NBlock{Name: "body", Body: c11use(0, call)})
+		ts["lay"] = tpl("lay", tx("LAY("), &gen.NBlock{Name: "body", Body: []gen.Node{tx("lay-body")}}, tx(")"))
+		ts["main"] = tpl("main", main...)
 		return &Program{Templates: ts, Main: "main", Ctx: map[string]interface{}{}},
 			fmt.Sprintf("params=%d/args=%d/%s/%s", nparams, nargs, c11Forms[form], c11Uses[use])
 	}
